@@ -113,6 +113,11 @@ pub fn run_find(args: &[&str]) -> FindOut {
 
 /// Run the hooks-off `find` binary built from /repo (binary-level binding).
 pub fn run_find_bin(args: &[&str], cwd: &std::path::Path, stdin: Option<&[u8]>) -> FindOut {
+    run_find_bin_env(args, cwd, stdin, &[])
+}
+
+/// The same with extra environment variables (set after the fixed ones, so they may override them).
+pub fn run_find_bin_env(args: &[&str], cwd: &std::path::Path, stdin: Option<&[u8]>, env: &[(&str, &str)]) -> FindOut {
     use std::process::{Command, Stdio};
     let exe = crate::engine::repo_bin_dir().join("find");
     let mut c = Command::new(exe);
@@ -122,6 +127,7 @@ pub fn run_find_bin(args: &[&str], cwd: &std::path::Path, stdin: Option<&[u8]>) 
         .env("LC_ALL", "C")
         .env("TZ", "UTC")
         .env("PATH", "/usr/bin:/bin")
+        .envs(env.iter().copied())
         .stdout(Stdio::piped())
         .stderr(Stdio::piped())
         .stdin(if stdin.is_some() {
